@@ -465,13 +465,19 @@ def _second_stage(run, F, X, dev):
     gut = find_calls(A, sg, "get_unsigned_tx")
     run.require(len(gut) == 1, "_sign: get_unsigned_tx call vanished")
     V2m = P.method(V2, "ensure_connection")
+    # the verdict variables by role: the locals that receive the result of _validate_message(..) / _validate_auth(..)
+
+    def verdict_vars(callee):
+        return {t.id for n_ in A.own_nodes(sg) if isinstance(n_, ast.Assign) and isinstance(n_.value, ast.Call) and call_name(n_.value) == callee
+                for t in n_.targets if isinstance(t, ast.Name)}
+    msg_vars, auth_vars = verdict_vars("_validate_message"), verdict_vars("_validate_auth")
     for call, cs in A.callees(sg, V2):
         touches = any(c.fn is not None and (c.fn.qualname in dev or c.fn is V2m) for c in cs)
         if not touches:
             continue
         for cn in g.nodes_of(call):
             facts = F.local(sg, V2, cn)
-            has_msg = any(f.kind == "cmp" and f.op == ">=" and norm(f.left) == "message_validation" for f in facts)
+            has_msg = any(f.kind == "cmp" and f.op == ">=" and norm(f.left) in msg_vars for f in facts)
             run.check("R4", has_msg, f"_sign: `{norm(call.func)}` after the message check",
                       key=f"HSM2ProtocolLedger._sign|{norm(call.func)}|before-message-check", where=sg.loc(call),
                       message=f"in _sign the device-touching call `{norm(call)[:50]}` is not dominated by a "
@@ -480,7 +486,7 @@ def _second_stage(run, F, X, dev):
             # on the authorized branch also auth check and decode
             hashed = any(f.kind == "cmp" and f.op == "in" and "hash" in norm(f.left) for f in facts)
             if not hashed:
-                has_auth = any(f.kind == "cmp" and f.op == ">=" and norm(f.left) == "auth_validation" for f in facts)
+                has_auth = any(f.kind == "cmp" and f.op == ">=" and norm(f.left) in auth_vars for f in facts)
                 dec = any(g.dominates(x, cn) for x in g.nodes_of(gut[0]))
                 run.check("R4", has_auth and dec, f"_sign: `{norm(call.func)}` after auth check and tx decoding",
                           key=f"HSM2ProtocolLedger._sign|{norm(call.func)}|before-auth-or-decode", where=sg.loc(call),
